@@ -216,7 +216,11 @@ def run_check(prop: str, tier: str, seed: int) -> int:
         "verdict": "violated" if violations else ("inconclusive" if inconclusive else "held_on_observed"),
         "repo": repo_root(),
     }
+    # evidence describes /repo itself; a run against a scratch copy (VERIF_REPO: mutant / seeded self-test)
+    # keeps its evidence inside that copy, which is removed with it
     edir = os.path.join(VERIF_ROOT, "evidence")
+    if os.path.realpath(repo_root()) != "/repo":
+        edir = os.path.join(repo_root(), ".vf-evidence")
     os.makedirs(edir, exist_ok=True)
     with open(os.path.join(edir, f"{prop}.json"), "w") as f:
         json.dump(ev, f, indent=1, default=repr)
